@@ -39,6 +39,11 @@ def user_combiner(kind, n, rng):
     return kind, kind
 
 
+INF = float("inf")
+EMB = 10**9          # order embedding of +-inf for the exact oracle and the model (finite statistics are far smaller in absolute value)
+emb = lambda v: EMB if v == INF else (-EMB if v == -INF else v)
+
+
 def gen_table(ctx):
     reps = ctx.rng.choice([1, 2, 3, 5, 8, 10, 13, 20, 40]) if ctx.rng.random() < 0.7 else (ctx.rng.randint(1, 40) if ctx.rng.random() < 0.85 else ctx.rng.choice([99, 150, 257]))
     n = ctx.rng.randint(2, 5) if ctx.rng.random() < 0.85 else ctx.rng.choice([8, 9, 12, 16])
@@ -57,6 +62,16 @@ def gen_table(ctx):
         ts = [sorted(r[c] for r in tv)[reps // 2] for c in range(n)]
     else:
         ts = [ctx.rng.randint(0, hi + 1) for _ in range(n)]
+    if ctx.rng.random() < 0.06:
+        # infinite statistics (risk ratios with an empty cell, t with no spread): ordered like any other value, equal infinities tie
+        for c in range(n):
+            if ctx.rng.random() < 0.7:
+                for r in tv:
+                    if ctx.rng.random() < 0.35:
+                        r[c] = INF if ctx.rng.random() < 0.7 else -INF
+                if ctx.rng.random() < 0.5:
+                    ts[c] = INF if ctx.rng.random() < 0.7 else -INF
+        return reps, n, tv, ts, "infinite"
     if ctx.rng.random() < 0.06:
         # integer statistics beyond 2^53 (sums of ids / nanosecond timestamps): distinct as integers, equal as doubles
         off = ctx.rng.choice([2**53, 2**53 + 1, 1_700_000_000_000_000_000])
@@ -83,6 +98,9 @@ def run(ctx):
     # ------------------------------------------------------------------ sim_npc
     for _ in range(ctx.n(500, 8000)):
         reps, n, tv, ts, mode = gen_table(ctx)
+        tv_impl, ts_impl = tv, ts
+        if mode == "infinite":
+            tv, ts = [[emb(v) for v in r_] for r_ in tv], [emb(v) for v in ts]
         comb = ctx.rng.choice(COMBS)
         if mode == "wide" and ctx.rng.random() < 0.7:
             comb = "fisher"
@@ -91,9 +109,14 @@ def run(ctx):
             kinds = [ctx.rng.choice(["f32", "int", "i64"])] * n      # a homogeneous non-float64 matrix
         if mode == "bigint":
             kinds = [ctx.rng.choice(["int", "i64"])] * n             # exact integer statistics throughout
-        e, tests, st = scripted_experiment(tv, ts, kinds)
+        if mode == "infinite":
+            kinds = [ctx.rng.choice(["np", "float"]) for _ in range(n)]
+        e, tests, st = scripted_experiment(tv_impl, ts_impl, kinds)
         cfun, cname = user_combiner(comb, n, ctx.rng)
+        tests_before = list(tests)
         r = guarded(npc.sim_npc, e, tests, combine=cfun, reps=reps, in_place=ctx.rng.random() < 0.3)
+        if len(tests) != len(tests_before) or any(a_ is not b_ for a_, b_ in zip(tests, tests_before)):
+            ctx.violation("input-modified", {"call": "sim_npc", "issue": "the caller's list of test functions was modified by the call"}, site="sim_npc")
         tie = any(len(set(r_[c] for r_ in tv + [ts])) < reps + 1 for c in range(n))
         ctx.case((tuple(map(tuple, tv)), tuple(ts), comb), tie or mode in ("extreme", "low"),
                  {"call": "sim_npc", "reps": reps, "combine": comb, "observed": ts, "table": tv[:6]})
@@ -107,7 +130,8 @@ def run(ctx):
         bad = None
         for c in range(n):
             want = Fr(sum(1 for row in tv if row[c] >= ts[c]) + 1, reps + 1)
-            if not close(rps[c], want) or not close(rts[c], Fr(ts[c])):
+            same_stat = (float(rts[c]) == float(ts_impl[c])) if abs(float(ts_impl[c])) == INF else close(rts[c], Fr(ts[c]))
+            if not close(rps[c], want) or not same_stat:
                 bad = {"issue": "partial p-value / statistic", "column": c, "returned": [float(rps[c]), float(rts[c])], "expected": [want, ts[c]]}
         k = numerator_of(p, reps + 1)
         if k is None or k < 1 or k > reps + 1:
@@ -163,6 +187,9 @@ def run(ctx):
         reps, n, tv, ts, mode = gen_table(ctx)
         while mode == "wide":        # underflowing products are exercised through sim_npc above
             reps, n, tv, ts, mode = gen_table(ctx)
+        D_impl = tv + [ts]
+        if mode == "infinite":
+            tv, ts = [[emb(v) for v in r_] for r_ in tv], [emb(v) for v in ts]
         D = tv + [ts]; B = len(D)
         plus1 = ctx.rng.random() < 0.5
         c = 1 if plus1 else 0
@@ -175,7 +202,9 @@ def run(ctx):
         dt = ctx.rng.choice([float, float, np.float32, np.int64, int])
         if mode == "bigint":
             dt = np.int64                                        # exact integers beyond 2^53: only an integer matrix holds them
-        Darr = layout(POOL.get("distr", D, dt), ctx.rng)        # reused buffer, various memory layouts
+        if mode == "infinite":
+            dt = float
+        Darr = layout(POOL.get("distr", D_impl, dt), ctx.rng)   # reused buffer, various memory layouts
         if ctx.rng.random() < 0.3:                               # a different combiner first, on the very same contents
             guarded(npc.npc, np.array([float(t) for t in pv]), Darr, combine=ctx.rng.choice(["liptak", "fisher", "tippett"]), plus1=plus1)
         r = guarded(npc.npc, POOL.get("pv", [float(t) for t in pv], float), Darr, combine=cfun, plus1=plus1)
@@ -195,7 +224,7 @@ def run(ctx):
     # ------------------------------------------------------------------ exact validity by rotation
     for _ in range(ctx.n(40, 400)):
         reps, n, tv, ts, mode = gen_table(ctx)
-        if reps > 10 or mode in ("wide", "bigint"):
+        if reps > 10 or mode in ("wide", "bigint", "infinite"):
             continue
         D = tv + [ts]; B = len(D)
         comb = ctx.rng.choice(["tippett", "fisher"])
